@@ -374,17 +374,22 @@ class DictReader:
 
             try:
                 sec = odmlfmt.Section.create(**sec_attrs)
-
-                for prop in sec_props:
-                    sec.append(prop)
-
-                for child_sec in children_secs:
-                    sec.append(child_sec)
-
-                odml_sections.append(sec)
             except Exception as exc:
                 msg = "Section not created (%s)\n  %s" % (sec_attrs, str(exc))
                 self.error(msg)
+                continue
+
+            # e.g. a child with the name of one of its siblings cannot be added;
+            # the Section and its other children are kept.
+            for child in sec_props + children_secs:
+                try:
+                    sec.append(child)
+                except Exception as exc:
+                    self.error("%s not added to the Section '%s' (%s)\n  %s" %
+                               (child.format().name.capitalize(), sec.name,
+                                child.name, str(exc)))
+
+            odml_sections.append(sec)
 
         return odml_sections
 
